@@ -191,6 +191,54 @@ class SSet(Symbolic):
     def _contains(self, it, k, node=None):
         return SV(self.has(self.kc.unwrap(k)), "bool")
 
+    def _isinstance(self, it, k):
+        import collections.abc as cabc
+        return k in (set, frozenset, object, cabc.Set, cabc.Iterable, cabc.Collection, cabc.Sized, cabc.Container)
+
+    def _len(self, it):
+        """cardinality: an uninterpreted non-negative integer that is 0 exactly for the empty set"""
+        card = z3.Function("card_" + str(self.kc.sort), self.chi.sort(), z3.IntSort())
+        k = z3.Const(it.cx.fresh_name("k"), self.kc.sort)
+        c = card(self.chi)
+        it.cx.assume(z3.And(c >= 0, (c == 0) == z3.ForAll([k], z3.Not(self.has(k)))))
+        return SV(c, "int")
+
+    def _truth(self, it):
+        k = z3.Const(it.cx.fresh_name("k"), self.kc.sort)
+        return SV(z3.Exists([k], self.has(k)), "bool")
+
+    def _as_chi(self, it, other):
+        """characteristic array of another set-like value (SSet, or a native set / frozenset of values)"""
+        if isinstance(other, SSet):
+            return other.chi
+        if isinstance(other, (set, frozenset, list, tuple)):
+            chi = z3.K(self.kc.sort, z3.BoolVal(False))
+            for x in other:
+                chi = z3.Store(chi, self.kc.unwrap(x), z3.BoolVal(True))
+            return chi
+        return None
+
+    def _getattr(self, it, name, node=None):
+        from .models import SymCallable
+        cx = it.cx
+        if name in ("difference", "union", "intersection"):
+            def op(it_, *others):
+                chi = self.chi
+                k = z3.Const(cx.fresh_name("k"), self.kc.sort)
+                for o in others:
+                    oc = self._as_chi(it_, o)
+                    if oc is None:
+                        raise OutOfSubset(f"set.{name} with {type(o).__name__}", node)
+                    new = z3.Const(cx.fresh_name("set"), self.chi.sort())
+                    cur = z3.Select(chi, k)
+                    oth = z3.Select(oc, k)
+                    body = {"difference": z3.And(cur, z3.Not(oth)), "union": z3.Or(cur, oth), "intersection": z3.And(cur, oth)}[name]
+                    cx.assume(z3.ForAll([k], z3.Select(new, k) == body))       # definitional extension (lambda-free)
+                    chi = new
+                return SSet(self.kc, chi)
+            return SymCallable(op, f"set.{name}")
+        raise OutOfSubset(f"set method {name} on a symbolic set", node)
+
     def _compare(self, it, name, other, rev, node):
         if name not in ("eq", "ne"):
             return NotImplemented
@@ -346,6 +394,13 @@ class SSeq(Symbolic):
 
     def _enumerate(self, it, start=0):
         return SEnum(self, start)
+
+    def _to_set(self, it):
+        cx = it.cx
+        chi = z3.Const(cx.fresh_name("setof"), z3.ArraySort(self.ec.sort, z3.BoolSort()))
+        x = z3.Const(cx.fresh_name("x"), self.ec.sort)
+        cx.assume(z3.ForAll([x], z3.Select(chi, x) == member_formula(self, x)))
+        return SSet(self.ec, chi)
 
     def _to_tuple(self, it):
         return SSeq(it.cx, self.ec, self.name, self.length, self.arr, tuple)
